@@ -21,14 +21,14 @@ Section Facts2.
   (* the straight-line prefix of solve_t: guards passed, pre-hook returned *)
   Lemma solve_t_M_run d o t s p v1 :
     min_iter o <= max_iter o ->
-    py_pos (length (status s)) t = Some p -> offset o = 0 ->
+    py_pos (length (status s)) t = Some p -> feasible d (length (status s)) p = true -> offset o = 0 ->
     is_raise (errors o) && negb (all_finite (get_check d (vals_of s) p)) = false ->
     before t (errors o) (catch_first o) 0%nat (vals_of s) = (v1, None) ->
     solve_t_M d o t s =
     finish o s p (loop d o t p (Z.to_nat (max_iter o)) 1%nat v1 (get_check d (vals_of s) p) (log s ++ [EvBefore t])).
   Proof.
-    intros Hmm Hp Hoff Hpre Hb. unfold Solver.solve_t_M.
-    replace (max_iter o <? min_iter o) with false by lia. rewrite Hp, Hoff. cbn [Z.eqb].
+    intros Hmm Hp Hfeas Hoff Hpre Hb. unfold Solver.solve_t_M.
+    replace (max_iter o <? min_iter o) with false by lia. rewrite Hp, Hfeas, Hoff. cbn [Z.eqb negb].
     rewrite Hpre, Hb. reflexivity.
   Qed.
 
@@ -254,6 +254,7 @@ Section Facts2.
   Proof.
     intros Hp H. pose proof (py_pos_lt _ _ _ Hp) as Hlt. unfold Solver.solve_t_M in H.
     destruct (max_iter o <? min_iter o); [discriminate|]. rewrite Hp in H.
+    destruct (negb (feasible d (length (status s)) p)); [discriminate|].
     match type of H with context [match ?pre with inl _ => _ | inr _ => _ end] => destruct pre as [v0|e] end; [|discriminate].
     destruct (is_raise (errors o) && negb (all_finite (get_check d v0 p))); [discriminate|].
     destruct (before t (errors o) (catch_first o) 0%nat v0) as [v1 [c|]]; [discriminate|].
@@ -275,6 +276,7 @@ Section Facts2.
   Proof.
     intros Hp H. pose proof (py_pos_lt _ _ _ Hp) as Hlt. unfold Solver.solve_t_M in H.
     destruct (max_iter o <? min_iter o); [inversion H; subst; split; auto|]. rewrite Hp in H.
+    destruct (negb (feasible d (length (status s)) p)); [inversion H; subst; split; auto|].
     match type of H with context [match ?pre with inl _ => _ | inr _ => _ end] => destruct pre as [v0|e0] eqn:Epre end.
     2:{ inversion H; subst. split; [|auto].
         destruct (offset o =? 0); [discriminate|].
@@ -303,6 +305,7 @@ Section Facts2.
     Variables (d : mdesc) (o : opts num) (t : Z) (s : mstate num) (p : nat) (v1 : vals num).
     Hypothesis Hmm : min_iter o <= max_iter o.
     Hypothesis Hp : py_pos (length (status s)) t = Some p.
+    Hypothesis Hfeas : feasible d (length (status s)) p = true.
     Hypothesis Hoff : offset o = 0.
     Let c0 := get_check d (vals_of s) p.
     Let N := Z.to_nat (max_iter o).
@@ -313,7 +316,7 @@ Section Facts2.
       solve_t_M d o t s = (mkState (vals_of s) (status s) (iters s) (log s), Raise (SolutionError None)).
     Proof.
       intros He Hnf. unfold Solver.solve_t_M. replace (max_iter o <? min_iter o) with false by lia.
-      rewrite Hp, Hoff. cbn [Z.eqb]. fold c0. rewrite He, Hnf. reflexivity.
+      rewrite Hp, Hfeas, Hoff. cbn [Z.eqb negb]. fold c0. rewrite He, Hnf. reflexivity.
     Qed.
 
     (* an exception in the pre-hook: SolutionError chained to it, no status / iteration recorded *)
@@ -323,7 +326,7 @@ Section Facts2.
       solve_t_M d o t s = (mkState v' (status s) (iters s) (log s ++ [EvBefore t]), Raise (SolutionError (Some c))).
     Proof.
       intros Hpre Hb. unfold Solver.solve_t_M. replace (max_iter o <? min_iter o) with false by lia.
-      rewrite Hp, Hoff. cbn [Z.eqb]. fold c0. rewrite Hpre, Hb. reflexivity.
+      rewrite Hp, Hfeas, Hoff. cbn [Z.eqb negb]. fold c0. rewrite Hpre, Hb. reflexivity.
     Qed.
 
     Hypothesis Hpre : is_raise (errors o) && negb (all_finite c0) = false.
@@ -352,7 +355,7 @@ Section Facts2.
       end.
     Proof.
       intros Hk Hq Hs Hnf lg' v'.
-      rewrite (solve_t_M_run d o t s p v1 Hmm Hp Hoff Hpre Hb). fold c0 N.
+      rewrite (solve_t_M_run d o t s p v1 Hmm Hp Hfeas Hoff Hpre Hb). fold c0 N.
       replace N with (k + S (N - S k))%nat by lia.
       rewrite (loop_first_nonfinite d o t p c0 v1 k (N - S k) _ Hq Hs Hnf). cbv zeta.
       subst lg' v'. rewrite <- !app_assoc.
@@ -375,7 +378,7 @@ Section Facts2.
        Raise (SolutionError (Some c))).
     Proof.
       intros Hk Hq E.
-      rewrite (solve_t_M_run d o t s p v1 Hmm Hp Hoff Hpre Hb). fold c0 N.
+      rewrite (solve_t_M_run d o t s p v1 Hmm Hp Hfeas Hoff Hpre Hb). fold c0 N.
       replace N with (k + S (N - S k))%nat by lia.
       rewrite (loop_ev_raises d o t p c0 v1 k (N - S k) _ v' c Hq E). rewrite <- !app_assoc.
       destruct (is_raise (errors o)); reflexivity.
@@ -403,7 +406,7 @@ Section Facts2.
       end.
     Proof.
       intros Hign Hev.
-      rewrite (solve_t_M_run d o t s p v1 Hmm Hp Hoff Hpre Hb). fold c0 N.
+      rewrite (solve_t_M_run d o t s p v1 Hmm Hp Hfeas Hoff Hpre Hb). fold c0 N.
       pose proof (loop_ignore_spec d o t p c0 v1 Hign N 0 (log s ++ [EvBefore t])) as HL.
       cbn [SolverFacts.st_after SolverFacts.chkseq] in HL. rewrite HL by (intros i Hi; apply Hev; lia). clear HL.
       destruct (find_first _ 1 N) as [k0|].
